@@ -63,7 +63,8 @@ def core_definitions():
                                                    R("a"), A("d", "Tracked"), C(), R("c"), A("e", "VecU"), C("basic")]))
     # zero-size data in front of / behind a gap, zero-size droppable
     ds.append(("zst_gaps", ["clone", "serde"], [A("a", "Tracked"), A("z", "Zst"), A("c", "P4"), C(), R("a"),
-                                                A("zd", "ZstDrop"), A("d", "Tracked"), C(), A("za", "ZstA8"), R("c"), C("basic")]))
+                                                A("zd", "ZstDrop"), A("d", "Tracked"), C(), A("za", "ZstA8"), R("c"), R("zd"), C("basic"),
+                                                R("d"), R("z"), C()]))
     # over-aligned field introduced late: the record alignment is set by a later variant
     ds.append(("late_overalign", ["clone"], [A("a", "P1"), A("b", "Odd3"), C(), A("o", "Over16", True), C(),
                                              R("o"), A("w", "P16"), C("append")]))
